@@ -14,6 +14,14 @@ var CronExprs = []string{"* * * * * *", "*/2 * * * * *", "*/5 * * * * *", "bad c
 var IdTemplates = []string{"{{.id}}.{{.timestamp}}", "fixed", "x-{{.timestamp}}"}
 var RouteTags = []string{"poll://g/i", "http://h/x", `{"type":"poll","data":{"group":"g","id":"i"}}`, "default", "true", "17", `{"a":1}`}
 
+// Hostile extends the pools with values that used to crash or corrupt the server (markup characters in
+// schedule ids, unclosed template actions, JSON literals as routing tags).
+func Hostile() {
+	SchedIds = append(SchedIds, "s&<")
+	IdTemplates = append(IdTemplates, "x.{{.timestamp")
+	RouteTags = append(RouteTags, "null")
+}
+
 type ApiOpts struct {
 	Kinds []t_api.Kind // kinds to draw from
 	Now   int64
